@@ -4,6 +4,7 @@ C01 — struct conversions move every value to the field the instructions design
 the 35-arm match of `render_struct_line`; the theorems show the expander's line is the specified one, cell by cell.
 -/
 import O2oModel.Lemmas.Blocks
+import O2oModel.Lemmas.Sem
 namespace O2o
 
 namespace Spec
@@ -158,5 +159,66 @@ example : ∀ t ∈ ([(1, "a", (default : Field)), (2, "b", default)] : List (Na
   intro t ht
   simp at ht
   rcases ht with rfl | rfl <;> rfl
+
+/-! ### values (record semantics of `O2oModel/Sem.lean`)
+
+`fs` lists the members with, for each, its own name `n` and the counterpart member `x` the instructions designate
+(`Simple`: no instruction — then `x = n` — or a rename without expression). The statements hold for every number of
+members, every order, every mixture of renamed and unrenamed members, and every source record. -/
+
+/-- C01 (values, From): the body emitted for the members builds the record that holds, at each member `n`, exactly the
+    value found at the designated counterpart member `x` of the source — and nothing else (the result has one binding
+    per member, in declaration order); it is undefined only if some designated member does not exist in the source -/
+theorem C01_value_from (ctx : ImplContext) (fs : List (Field × String × String))
+    (hk : ctx.kind.cls = .from_) (hv : ctx.isVariant = false) (hs : ∀ t ∈ fs, Simple ctx t.1 t.2.1 t.2.2) :
+    ∃ body, flatLines ctx .unspecified (fs.map (·.1)) 0 = .ok body ∧
+      ∀ src : Sem.Rec, Sem.evalInit "value" src body = fs.mapM (fun t => (src.get? t.2.2).map fun v => (t.2.1, v)) :=
+  value_from ctx fs hk hv hs
+
+/-- C01 (values, Into): the counterpart record gets, at each designated member `x`, the value of the member `n` -/
+theorem C01_value_into (ctx : ImplContext) (fs : List (Field × String × String))
+    (hk : ctx.kind.cls = .into) (hv : ctx.isVariant = false) (hpost : ctx.hasPostInit = false)
+    (hs : ∀ t ∈ fs, Simple ctx t.1 t.2.1 t.2.2) :
+    ∃ body, flatLines ctx .unspecified (fs.map (·.1)) 0 = .ok body ∧
+      ∀ s : Sem.Rec, Sem.evalInit "self" s body = fs.mapM (fun t => (s.get? t.2.1).map fun v => (t.2.2, v)) :=
+  value_into ctx fs hk hv hpost hs
+
+/-- C01 (values, IntoExisting): running the emitted assignments against an existing counterpart record `other` leaves a
+    record in which every designated member `x` holds the value of its member `n` (when no two members designate the
+    same `x`), and **every other member of `other` keeps the value it had** — for every number of members -/
+theorem C01_value_existing (ctx : ImplContext) (fs : List (Field × String × String))
+    (hk : ctx.kind.cls = .existing) (hv : ctx.isVariant = false) (hs : ∀ t ∈ fs, Simple ctx t.1 t.2.1 t.2.2) :
+    ∃ body, flatLines ctx .unspecified (fs.map (·.1)) 0 = .ok body ∧
+      ∀ (s other : Sem.Rec), (∀ t ∈ fs, (s.get? t.2.1).isSome) →
+        ∃ r, Sem.execBody "self" s body other = some r ∧
+          (∀ k, k ∉ fs.map (·.2.2) → Sem.Rec.get? r k = Sem.Rec.get? other k) ∧
+          ((fs.map (·.2.2)).Nodup → ∀ t ∈ fs, Sem.Rec.get? r t.2.2 = s.get? t.2.1) :=
+  value_existing ctx fs hk hv hs
+
+/-- C01 (values, round trip): when no two members designate the same counterpart member, converting into the
+    counterpart and back gives every member its own value again — `from (into s) = s` on the mapped members, for
+    every number of members, every renaming and every record `s` that has those members. (`ps` pairs each member `n`
+    with its designated counterpart member `x`; the two `mapM`s are the meanings of the Into and From bodies given by
+    `C01_value_into` / `C01_value_from`.) -/
+theorem C01_value_roundtrip (ps : List (String × String)) (s : Sem.Rec) (hinj : (ps.map (·.2)).Nodup)
+    (hdef : ∀ p ∈ ps, (s.get? p.1).isSome) :
+    ∃ r, ps.mapM (fun p => (s.get? p.1).map fun v => (p.2, v)) = some r ∧
+      ps.mapM (fun p => (Sem.Rec.get? r p.2).map fun v => (p.1, v)) = ps.mapM (fun p => (s.get? p.1).map fun v => (p.1, v)) :=
+  roundtrip_pairs ps s hinj hdef
+
+/-- non-vacuity: a member without any instruction is `Simple` in an owned From conversion, and the reading of a two-line
+    body on a concrete record -/
+example (ctx : ImplContext) (hk : ctx.kind = .fromOwned) :
+    Simple ctx { attrs := {}, idx := 0, member := .named "a", memberStr := "a", ty := none } "a" "a" := by
+  constructor
+  · rfl
+  · simp [MemberAttrs.child, findDedicatedOrDefault]
+  · simp [fieldSkipped, hk, Kind.isFrom, ghostNoDefault, MemberAttrs.ghost, findDedicatedOrDefault]
+  · left
+    simp [MemberAttrs.applicableAttr, MemberAttrs.ghost, MemberAttrs.fieldAttrCore, MemberAttrs.fieldAttr, MemberAttrs.iterForKind, MemberAttrs.hasParentAttr,
+      findDedicatedOrDefault, hk]
+
+example : Sem.evalInit "value" [("x", 1), ("y", 2)] (tokLine "a" "value" "x" ++ tokLine "b" "value" "y") = some [("a", 1), ("b", 2)] := by
+  decide
 
 end O2o
